@@ -508,8 +508,9 @@ class LSMTree(Entity):
         )
         self._memtable.set_clock(self._clock)
 
-        # Flush to SSTable
-        sstable = old_memtable.flush()
+        # Flush to SSTable. The immutable memtable keeps its entries so that
+        # reads during the write latency below still see them.
+        sstable = old_memtable.flush(clear=False)
         self._sstable_bytes_written += sstable.size_bytes
 
         # Write latency for creating SSTable on disk
